@@ -137,6 +137,7 @@ type Frame struct {
 	loops   *loopInfo
 	recovered bool
 	fnspecOuter bool
+	atInside bool
 	deferPCs []Term
 }
 
@@ -334,7 +335,13 @@ func (fx *FnExec) entryFact(lv *LV) {
 		return
 	}
 	if strings.Contains(f.S, "|q!") {
-		return // mentions a bound variable of an enclosing quantifier
+		// under a quantifier: the fact becomes a side condition of the quantified body
+		if n := len(fx.ctx.qfacts); n > 0 {
+			w := fx.entry.wm.S
+			guard := fmt.Sprintf("(and (<= %s %s) (> %s (- (* 1024 (+ %s 1)))))", lv.Ref.S, w, lv.Ref.S, w)
+			fx.ctx.qfacts[n-1] = append(fx.ctx.qfacts[n-1], "(=> "+guard+" "+f.S+")")
+		}
+		return
 	}
 	// only cells of objects that existed at entry (or interior parts of such objects): cells above the entry
 	// watermark are unallocated and hold whatever a later allocation puts there
@@ -816,7 +823,7 @@ func (fr *Frame) enterLoop(h *ssa.BasicBlock, ins []*State, preds []*ssa.BasicBl
 	if spec != nil {
 		for i, c := range spec.Inv {
 			env := fr.specEnv(pre, h, nil)
-			g, err := env.evalBool(c.Expr)
+			g, err := env.evalGoal(c.Expr)
 			if err != nil {
 				fx.unsupported = append(fx.unsupported, fmt.Sprintf("loop %d invariant %q: %v", ord, c.Src, err))
 				continue
@@ -887,6 +894,14 @@ func (fr *Frame) enterLoop(h *ssa.BasicBlock, ins []*State, preds []*ssa.BasicBl
 			fx.extendPC(st, Ge(fx.materialize(fr.vals[phi], phi.Type()), Int(-1)))
 		}
 	}
+	defer func() {
+		if fr.top && fx.contract != nil && spec != nil {
+			o := fx.oblige(st.clone(), "cover", fmt.Sprintf("loop%d-reachable", ord), False, token.NoPos)
+			if o != nil {
+				o.Expect = "canary"
+			}
+		}
+	}()
 	// 3. assume invariant
 	if spec != nil && len(spec.Step) > 0 {
 		if loopHdrs[fr] == nil {
@@ -991,7 +1006,7 @@ func (fr *Frame) backEdge(u, h *ssa.BasicBlock, st *State) {
 	work := st.clone()
 	for i, c := range spec.Inv {
 		env := fr.specEnv(work, h, nil)
-		g, err := env.evalBool(c.Expr)
+		g, err := env.evalGoal(c.Expr)
 		if err != nil {
 			fx.unsupported = append(fx.unsupported, fmt.Sprintf("loop %d invariant %q at back edge: %v", ord, c.Src, err))
 			continue
